@@ -438,6 +438,41 @@ func fixedSpecs() ([]*caseSpec, []string) {
 		cs.maxNonce = idC0
 		cs.txs = []txSpec{{Target: idC0}}
 	})
+	// repeated SELFDESTRUCT: X (17) selfdestructs, is credited again (Y = 16 selfdestructs with X as beneficiary: no code
+	// of X runs), then selfdestructs a second time inside a frame that fails at this or an outer level; within one
+	// transaction and across the transactions of one block (no Finalise in between, as in the block loop)
+	for _, fail := range []string{"revert", "invalid"} {
+		for _, level := range []string{"inner", "outer"} {
+			for _, cross := range []bool{false, true} {
+				for _, val := range []uint64{0, 3} {
+					fail, level, cross, val := fail, level, cross, val
+					special(fmt.Sprintf("repeated-selfdestruct|%s|%s|cross-tx=%v|value=%d", fail, level, cross, val), func(t *table, cs *caseSpec, add func(Prog) int) {
+						x, y := idC0+6, idC0+5
+						cs.codeAt[x] = add(Prog{Acts: []Action{{Op: "log", K: 4}}, Fin: "selfdestruct", FinArg: idEOA})
+						cs.codeAt[y] = add(Prog{Fin: "selfdestruct", FinArg: x})
+						again := Action{Op: "call", Kind: "call", Target: x, Value: val}
+						if level == "inner" {
+							cs.codeAt[idC0+1] = add(Prog{Acts: []Action{{Op: "sstore", K: 1, V: 2}, again}, Fin: fail})
+							cs.codeAt[idC0+2] = add(Prog{Fin: "stop"})
+						} else {
+							cs.codeAt[idC0+2] = add(Prog{Acts: []Action{again, {Op: "log", K: 6}}, Fin: "stop"})
+							cs.codeAt[idC0+1] = add(Prog{Acts: []Action{{Op: "call", Kind: "call", Target: idC0 + 2}, {Op: "sstore", K: 1, V: 2}}, Fin: fail})
+						}
+						if cross {
+							cs.codeAt[idC0] = add(Prog{Acts: []Action{{Op: "call", Kind: "call", Target: idC0 + 1}, {Op: "log", K: 2}}, Fin: "stop"})
+							cs.txs = []txSpec{{Target: x}, {Target: y}, {Target: idC0 + 1}, {Target: idC0}}
+						} else {
+							cs.codeAt[idC0] = add(Prog{Acts: []Action{{Op: "call", Kind: "call", Target: x}, {Op: "call", Kind: "call", Target: y},
+								{Op: "call", Kind: "call", Target: idC0 + 1}, {Op: "log", K: 2}}, Fin: "stop"})
+							cs.txs = []txSpec{{Target: idC0}}
+						}
+						filler(t, cs, map[int]bool{idC0: true, idC0 + 1: true, idC0 + 2: true, x: true, y: true})
+						cs.balOf = map[int]uint64{x: 11, y: 7, idC0 + 1: 50, idC0 + 2: 50}
+					})
+				}
+			}
+		}
+	}
 	// custom opcodes in a frame that fails afterwards / whose caller fails
 	special("stake-unstake-unstakeall-reverted", func(t *table, cs *caseSpec, add func(Prog) int) {
 		cs.codeAt[idMiner] = add(Prog{Acts: []Action{{Op: "stake", V: 2}, {Op: "unstake", V: 500}, {Op: "unstakeall"}, {Op: "stake", V: 1}}, Fin: "revert"})
